@@ -262,6 +262,13 @@ def script_lines(s, rng=None):
 
 DEFAULT_LAYOUT = dict(nl="\n", indent="    ", final_nl=True, spaced=False)
 
+# layout the language declares insignificant (C18); every key is optional:
+#   nl: "\n" | "\r\n" | "\r"      indent: "\t" | "    "      final_nl: bool
+#   spaced: a space at EVERY token boundary        wide: 1..3 spaces wherever there is one
+#   trail: probability of 1..3 spaces at a line end          eol_comment: probability of a comment at a line end
+#   own_comment / blank: probability of a comment line / empty line before a top-level line (never inside array bodies or loops)
+#   lead: number of blank/comment lines before the metadata
+
 
 def join_line(toks, layout, rng=None):
     out = []
@@ -279,14 +286,28 @@ def render(s, rng=None, layout=None):
     lay = dict(DEFAULT_LAYOUT)
     lay.update(layout or {})
     lines = script_lines(s, rng)
+    lrng = random.Random((rng.random() if rng else 0.5))
     out = []
     nmeta = 2 + (1 if s["target"]["name"] else 0) + (1 if s["type"]["name"] else 0) + len(s.get("incs", []))
+    for k in range(lay.get("lead", 0)):
+        out.append("# header comment %d" % k if k % 2 else "")
     for i, (ind, toks) in enumerate(lines):
         if i == nmeta and lay.get("blank_after_meta", True):
             out.append("")
-        out.append((lay["indent"] if ind else "") + join_line(toks, lay, rng))
+        if not ind and i > 0:
+            if lrng.random() < lay.get("blank", 0):
+                out.append("")
+            if lrng.random() < lay.get("own_comment", 0):
+                out.append("# a comment line, with = | [ symbols {x}")
+        line = (lay["indent"] if ind else "") + join_line(toks, lay, rng)
+        if lrng.random() < lay.get("eol_comment", 0):
+            line += " " * lrng.randint(1, 2) + "# trailing comment | 1"
+        elif lrng.random() < lay.get("trail", 0):
+            line += " " * lrng.randint(1, 3)
+        out.append(line)
     text = lay["nl"].join(out)
-    if lay["final_nl"]:
+    last_is_row = bool(lines) and lines[-1][0] and lines[-1][1] and s["body"] and s["body"][-1]["t"] in ("arr", "arrp")
+    if lay["final_nl"] or last_is_row:
         text += lay["nl"]
     return text
 
